@@ -123,8 +123,11 @@ impl QuakeState {
     }
 
     /// A status reply is one datagram: keep it within the MTU.
-    pub fn fit(&mut self) {
-        while self.encode().len() > 1400 {
+    pub fn fit(&mut self) { self.fit_to(1400) }
+
+    /// Keep the reply within `limit` bytes (a datagram above the MTU travels in IP fragments).
+    pub fn fit_to(&mut self, limit: usize) {
+        while self.encode().len() > limit {
             if self.players.pop().is_none() && self.extras.pop().is_none() {
                 break;
             }
